@@ -59,6 +59,7 @@ func main() {
 		{"PipeDataGen.v", genPipeData},
 		{"IndexTopGen.v", genIndexTop},
 		{"TmsJsonGen.v", genTmsJson},
+		{"TmsLoadGen.v", genTmsLoad},
 		{"SnapTopGen.v", genSnapTop},
 		{"RingHelpersGen.v", genRingHelpers},
 		{"QuadTreeGen.v", genQuadTree},
